@@ -741,3 +741,76 @@ IN_CELL = [
 
 for _m, _names, _fn in IN_CELL:
     globals()["InCell_" + _m] = _mk(_m, _names, _fn, "InCellPhase")
+
+
+# ------------------------------------------------------------------------------------------- "in select" mode
+def select_in_select_scope(old):
+    return stack_in_scope("select", "select", old.self.tree.openElements)
+
+
+# --- option: if the current node is an option, pop it; insert
+def spec_sel_option(old, self, token, result):
+    popped = 1 if old.self.tree.openElements[-1].name == "option" else 0
+    return result is None and ops_are(self, [("insert", token)]) and grew_by(old, self, 1 - popped)
+
+
+# --- select start tag: parse error; act as for </select>
+def spec_sel_select(old, self, token, result):
+    return result is None and ops_are(self, [("call", "endTagSelect", "select")])
+
+
+# --- input, keygen, textarea: parse error; without a select in select scope ignore; else act as for </select>, reprocess
+def spec_sel_input(old, self, token, result):
+    if not select_in_select_scope(old):
+        return result is None and ops_are(self, [])
+    return same_object(result, token) and ops_are(self, [("call", "endTagSelect", "select")])
+
+
+# --- </option>: pop the current node if it is an option, else parse error
+def spec_sel_end_option(old, self, token, result):
+    popped = 1 if old.self.tree.openElements[-1].name == "option" else 0
+    return result is None and ops_are(self, []) and grew_by(old, self, -popped)
+
+
+# --- </select>: ignored (parse error) without a select in select scope; else pop up to and including it, reset the mode
+def spec_sel_end_select(old, self, token, result):
+    if not select_in_select_scope(old):
+        return result is None and grew_by(old, self, 0) and same_object(self.parser.phase, old.self.parser.phase)
+    return (result is None and len(self.tree.openElements) < len(old.self.tree.openElements)
+            and not same_object(self.parser.phase, old.self.parser.phase))
+
+
+IN_SELECT = [
+    ("startTagOption", ["option"], spec_sel_option),
+    ("startTagSelect", ["select"], spec_sel_select),
+    ("startTagInput", ["input", "keygen", "textarea"], spec_sel_input),
+    ("startTagOther", None, spec_head_end_other),
+    ("endTagOption", ["option"], spec_sel_end_option),
+    ("endTagSelect", ["select"], spec_sel_end_select),
+    ("endTagOther", None, spec_head_end_other),
+]
+
+for _m, _names, _fn in IN_SELECT:
+    globals()["InSelect_" + _m] = _mk(_m, _names, _fn, "InSelectPhase")
+
+
+# ------------------------------------------------------------------------------------------- "in frameset" mode
+# --- frameset: insert
+def spec_fs_frameset(old, self, token, result):
+    return result is None and ops_are(self, [("insert", token)]) and grew_by(old, self, 1)
+
+
+# --- frame: insert, pop at once
+def spec_fs_frame(old, self, token, result):
+    return result is None and ops_are(self, [("insert", token)]) and grew_by(old, self, 0)
+
+
+IN_FRAMESET = [
+    ("startTagFrameset", ["frameset"], spec_fs_frameset),
+    ("startTagFrame", ["frame"], spec_fs_frame),
+    ("startTagOther", None, spec_head_end_other),
+    ("endTagOther", None, spec_head_end_other),
+]
+
+for _m, _names, _fn in IN_FRAMESET:
+    globals()["InFrameset_" + _m] = _mk(_m, _names, _fn, "InFramesetPhase")
